@@ -258,7 +258,7 @@ def gen_config(rs, name, d):
         kw["alpha"] = float([0.25, 0.5, 1.0][rs.randint(3)])
         kw["learning_rate"] = 0.05
         if fl.accepts(cls, "dynamic"):
-            kw["dynamic"] = bool(rs.rand() < 0.25)
+            kw["dynamic"] = bool(rs.rand() < 0.35)
         if rs.rand() < 0.3 and d >= 3:
             kw["groups"] = [[0, 1]] if rs.rand() < 0.5 else [[0, 1], list(range(2, d))]
         if fl.accepts(cls, "M"):
@@ -270,7 +270,9 @@ def gen_config(rs, name, d):
             m = rs.rand(d) < 0.6
             m[rs.randint(d)] = True
             kw["feature_mask"] = m
-    if kw.get("dynamic") and pre:
+    if kw.get("dynamic") and pre and rs.rand() < 0.4:
+        # dynamic mode together with a user matrix is legal (documented: a warning, dynamic mode ignored for that call):
+        # kept in most cases — the call must still leave the hyperparameter as it found it
         kw["dynamic"] = False
     return kw, pre
 
